@@ -128,10 +128,11 @@ def build(spec, ids=None, initialize=True, constrain=True):
     for name in spec.get('grp', {}):
         reg(name, _set_id(ConnectorDegreeGroupingNode(name), alloc.next()))
     for name, d in spec.get('dv', {}).items():
+        kw = dict(idx=d['idx']) if 'idx' in d else {}     # 'name' + 'idx': several dv nodes sharing one name
         if 'options' in d:
-            node = DesignVariableNode(name, options=list(range(d['options'])), obj_id=alloc.next())
+            node = DesignVariableNode(d.get('name', name), options=list(range(d['options'])), obj_id=alloc.next(), **kw)
         else:
-            node = DesignVariableNode(name, bounds=tuple(d['bounds']), obj_id=alloc.next())
+            node = DesignVariableNode(d.get('name', name), bounds=tuple(d['bounds']), obj_id=alloc.next(), **kw)
         reg(name, node)
     for name, m in spec.get('met', {}).items():
         type_ = m.get('type')
